@@ -16,63 +16,63 @@ def search(ctx):
     fails = []
     seen = set()
     for k, (no, ch, s, case) in enumerate(HC.search_cases(ctx)):
-        mod = tools if k % 2 == 1 else laue
-        kappa = 2 * math.pi if mod is tools else 1.0
         R, t = HR.ops_int(s)
         exp = HR.expected_all(s, case['cell'], case['lo'], case['hi'])
         fams = {}
         for h in exp:
             fams.setdefault(frozenset(HR.laue_orbit(h, R, s.nuniq)), None)
-        why, cls = None, None
-        try:
-            U4 = np.asarray(mod.genhkl_unique(case['cell'], case['lo'], case['hi'], sgno=no, cell_choice=ch, output_stl=True), float)
-            U3 = np.asarray(mod.genhkl_unique(case['cell'], case['lo'], case['hi'], sgno=no, cell_choice=ch), float)
-            rows = HC.rows_of(U4)
-            B = mod.form_b_mat(case['cell'])
-            hit = {}
-            bad_extra = 0
-            for h in rows:
-                f = frozenset(HR.laue_orbit(h, R, s.nuniq))
-                if f in fams:
-                    hit[f] = hit.get(f, 0) + 1
-                else:
-                    bad_extra += 1
-            missing = [f for f in fams if f not in hit]
-            multi = [f for f, c in hit.items() if c > 1]
-            if bad_extra or multi:
-                why, cls = 'genhkl_unique: %d rows outside the allowed families, %d families listed more than once' % (bad_extra, len(multi)), 'extra/duplicate'
-            elif missing:
-                cls = c05.classify(s, case, missing, [], 0)
-                why = 'genhkl_unique: %d Laue families missing (e.g. %r)' % (len(missing), sorted(missing[0])[:2])
-            elif U3.shape != (len(rows), 3) or (len(rows) and not np.array_equal(U3, U4[:, :3])):
-                why, cls = 'output_stl=False does not give the same rows', 'cols'
-            elif len(rows):
-                stl = U4[:, 3]
-                true = np.array([np.linalg.norm(B.dot(h)) / (2 * kappa) for h in rows])
-                if np.max(np.abs(stl - true)) > 1e-9:
-                    why, cls = 'fourth column is not sin(theta)/lambda of the row', 'stl'
-                elif np.any(np.diff(stl) < -1e-12):
-                    why, cls = 'rows not sorted by sin(theta)/lambda', 'sort'
-                elif np.min(stl) <= case['lo'] or np.max(stl) > case['hi']:
-                    why, cls = 'a row lies outside sintlmin < stl <= sintlmax', 'shell'
-            if why is None and k % 3 == 0:
-                A4 = np.asarray(mod.genhkl_all(case['cell'], case['lo'], case['hi'], sgno=no, cell_choice=ch, output_stl=True), float)
-                arows = HC.rows_of(A4)
-                union = set()
+        for mod, (form, kw) in HC.plan(k, s, no, ch, case, tools, laue):
+            kappa = 2 * math.pi if mod is tools else 1.0
+            why, cls = None, None
+            try:
+                U4 = np.asarray(mod.genhkl_unique(case['cell'], case['lo'], case['hi'], output_stl=True, **kw), float)
+                U3 = np.asarray(mod.genhkl_unique(case['cell'], case['lo'], case['hi'], **kw), float)
+                rows = HC.rows_of(U4)
+                B = mod.form_b_mat(case['cell'])
+                hit = {}
+                bad_extra = 0
                 for h in rows:
-                    union |= HR.laue_orbit(h, R, s.nuniq)
-                if set(arows) != union or len(arows) != len(set(arows)):
-                    why, cls = 'genhkl_all is not the union of the Laue families of genhkl_unique', 'union'
-                elif len(arows) and np.any(np.diff(A4[:, 3]) < -1e-12):
-                    why, cls = 'genhkl_all rows not sorted by sin(theta)/lambda', 'sort'
-        except Exception as e:
-            why, cls = 'raised %s: %s' % (type(e).__name__, e), 'exc'
-        ctx.count(('uniq', no, ch, k), hist='search:%s:%s%s' % (s.crystal_system, 'oblique' if HC.oblique(case) else 'orthogonal metric', (':' + case['kind']) if case.get('kind') else ''),
-                  sample={'sgno': no, 'cell_choice': ch, 'cell': case['cell'], 'sintlmax': case['hi'], 'families': len(fams)} if no == 62 else None)
-        if why and (cls, s.crystal_system if cls == 'F6' else no) not in seen:
-            seen.add((cls, s.crystal_system if cls == 'F6' else no))
-            fails.append({'sgno': no, 'cell_choice': ch, 'cell': case['cell'], 'sintlmin': case['lo'], 'sintlmax': case['hi'], 'module': mod.__name__,
-                          'class': cls, 'what': why, 'replay': '%s.genhkl_unique(%r, %r, %r, sgno=%d, cell_choice=%r): %s' % (mod.__name__, case['cell'], case['lo'], case['hi'], no, ch, why)})
+                    f = frozenset(HR.laue_orbit(h, R, s.nuniq))
+                    if f in fams:
+                        hit[f] = hit.get(f, 0) + 1
+                    else:
+                        bad_extra += 1
+                missing = [f for f in fams if f not in hit]
+                multi = [f for f, c in hit.items() if c > 1]
+                if bad_extra or multi:
+                    why, cls = 'genhkl_unique: %d rows outside the allowed families, %d families listed more than once' % (bad_extra, len(multi)), 'extra/duplicate'
+                elif missing:
+                    cls = c05.classify(s, case, missing, [], 0)
+                    why = 'genhkl_unique: %d Laue families missing (e.g. %r)' % (len(missing), sorted(missing[0])[:2])
+                elif U3.shape != (len(rows), 3) or (len(rows) and not np.array_equal(U3, U4[:, :3])):
+                    why, cls = 'output_stl=False does not give the same rows', 'cols'
+                elif len(rows):
+                    stl = U4[:, 3]
+                    true = np.array([np.linalg.norm(B.dot(h)) / (2 * kappa) for h in rows])
+                    if np.max(np.abs(stl - true)) > 1e-9:
+                        why, cls = 'fourth column is not sin(theta)/lambda of the row', 'stl'
+                    elif np.any(np.diff(stl) < -1e-12):
+                        why, cls = 'rows not sorted by sin(theta)/lambda', 'sort'
+                    elif np.min(stl) <= case['lo'] or np.max(stl) > case['hi']:
+                        why, cls = 'a row lies outside sintlmin < stl <= sintlmax', 'shell'
+                if why is None and k % 3 == 0:
+                    A4 = np.asarray(mod.genhkl_all(case['cell'], case['lo'], case['hi'], output_stl=True, **kw), float)
+                    arows = HC.rows_of(A4)
+                    union = set()
+                    for h in rows:
+                        union |= HR.laue_orbit(h, R, s.nuniq)
+                    if set(arows) != union or len(arows) != len(set(arows)):
+                        why, cls = 'genhkl_all is not the union of the Laue families of genhkl_unique', 'union'
+                    elif len(arows) and np.any(np.diff(A4[:, 3]) < -1e-12):
+                        why, cls = 'genhkl_all rows not sorted by sin(theta)/lambda', 'sort'
+            except Exception as e:
+                why, cls = 'raised %s: %s' % (type(e).__name__, e), 'exc'
+            ctx.count(('uniq', no, ch, k, mod.__name__, form), hist='search:%s:%s%s' % (s.crystal_system, 'oblique' if HC.oblique(case) else 'orthogonal metric', (':' + case['kind']) if case.get('kind') else ''),
+                      sample={'sgno': no, 'cell_choice': ch, 'cell': case['cell'], 'sintlmax': case['hi'], 'families': len(fams)} if no == 62 else None)
+            if why and (cls, s.crystal_system if cls == 'F6' else no) not in seen:
+                seen.add((cls, s.crystal_system if cls == 'F6' else no))
+                fails.append({'sgno': no, 'cell_choice': ch, 'cell': case['cell'], 'sintlmin': case['lo'], 'sintlmax': case['hi'], 'module': mod.__name__,
+                              'class': cls, 'what': why, 'replay': '%s.genhkl_unique(%r, %r, %r, %s): %s' % (mod.__name__, case['cell'], case['lo'], case['hi'], form, why)})
     # sintlmin exclusive / sintlmax inclusive, with the bound equal to the module's own sintl of a point the traversal evaluates
     for kb, (no, s, K, cell, h0) in enumerate(HC.boundary_cases(ctx)):
         mod = tools if kb % 2 == 0 else laue
